@@ -26,6 +26,19 @@ func init() {
 
 var c14Once = templ.NewOnceHandle(templ.WithComponent(tmpl.Leaf("once-shared")))
 
+// a handle that was NOT created with NewOnceHandle (zero value), shared by all goroutines and first used by all of them at once
+var c14ZeroOnce templ.OnceHandle
+
+var c14ZeroOnceTwice = templ.ComponentFunc(func(ctx context.Context, w io.Writer) error {
+	ctx = templ.InitializeContext(ctx)
+	for i := 0; i < 2; i++ {
+		if err := c14ZeroOnce.Once().Render(templ.WithChildren(ctx, templ.Raw("<once-zero/>")), w); err != nil {
+			return err
+		}
+	}
+	return nil
+})
+
 // package-level components shared by all goroutines
 var c14Shared = []struct {
 	name string
@@ -35,6 +48,7 @@ var c14Shared = []struct {
 	{"once", templ.Join(c14Once.Once(), c14Once.Once())}, {"hoist", tmpl.Hoist(true, true)}, {"failing-expr", tmpl.FailingExpr("x", true)},
 	{"failing-nested", tmpl.FailingNested(true)}, {"css", tmpl.CSSComponentSink(tmpl.DynCSS("color", "red"))}, {"long-literal", tmpl.LongLiteral()},
 	{"calltree", tmpl.CallWithBlock(tmpl.Use("1"), "m", tmpl.Twice("2"))},
+	{"once-zero-value", c14ZeroOnceTwice},
 }
 
 type slowWriter struct {
